@@ -727,6 +727,51 @@ def analyse_exact_fit(prog, util=False):
                 else:
                     continue
                 if charged(ptr, st):
+                    lp9 = next((a9 for a9 in st.ancestors() if a9.k in ("ForStmt", "WhileStmt", "DoStmt") and not c.within(a9)), None)
+                    if lp9 is not None and not (rhs is not None and rhs.const_value() is not None and False):
+                        # a transcription loop: one pointer walks over a string of the size expression, every round stores at most one
+                        # byte through the destination pointer and moves the source on by at least one -> at most strlen(source) bytes
+                        from . import loops as _loops9
+                        src9 = None
+                        for t9 in _loops9.traversals(lp9):
+                            if t9.ptr and t9.step > 0:
+                                src9 = t9
+                        walked = None
+                        if src9 is not None:
+                            # what the source pointer starts at
+                            ds9 = [d for d in rd.reaching(src9.var, lp9.child("cond") or st) if d.rhs is not None and (d.node is None or not d.node.within(lp9.child("body") or lp9))]
+                            starts = set(_norm(d.rhs) for d in ds9 if d.kind in ("init", "assign"))
+                            if len(starts) == 1 and list(starts)[0] in terms:
+                                walked = list(starts)[0]
+                        if walked is None and lp9.k == "ForStmt" and lp9.child("init") is not None and lp9.child("cond") is not None and lp9.child("inc") is not None:
+                            # for (in = S; *in != 0; in++)
+                            i9 = lp9.child("init").strip()
+                            v9 = s9 = None
+                            if i9.k == "DeclStmt" and i9.j.get("decls") and i9.j["decls"][0].get("init", -1) >= 0:
+                                v9, s9 = i9.j["decls"][0]["name"], _norm(f.nodes[i9.j["decls"][0]["init"]])
+                            elif i9.k == "BinaryOperator" and i9.j.get("op") == "=":
+                                v9, s9 = render(i9.children[0]), _norm(i9.children[1])
+                            c9 = render(lp9.child("cond"))
+                            inc9 = render(lp9.child("inc"))
+                            if v9 and s9 in terms and c9 in ("*%s" % v9, "*%s != '\\x00'" % v9, "*%s != 0" % v9, "%s[0]" % v9) and inc9 in ("%s++" % v9, "++%s" % v9):
+                                # the source pointer only ever moves forward inside the body
+                                back = [s2 for l2, r2, s2, k2 in query.stores(f) if s2.within(lp9.child("body")) and render(l2) == v9 and k2 not in ("++", "+=")]
+                                if not back:
+                                    walked = s9
+                        if walked is not None:
+                            cfg9 = f.cfg
+                            sb9 = [cfg9.block_of(s2) for l2, r2, s2, k2 in query.stores(f) if s2.within(lp9) and s2 is not st and l2.strip().j.get("ct") == "char"
+                                   and ((l2.strip().k == "UnaryOperator" and origins(rd, l2.strip().children[0], s2) & origins(rd, ptr, st))
+                                        or (l2.strip().k == "ArraySubscriptExpr" and origins(rd, l2.strip().children[0], s2) & origins(rd, ptr, st)))]
+                            hb9 = cfg9.loop_header(lp9)
+                            mine9 = cfg9.block_of(st)
+                            twice = any(b9 == mine9 or b9 in cfg9.reachable(mine9, avoid_blocks=[hb9]) or mine9 in cfg9.reachable(b9, avoid_blocks=[hb9]) for b9 in sb9)
+                            if not twice:
+                                if walked not in needed_terms:
+                                    needed_terms.append(walked)
+                                continue
+                        problems.append("bytes are stored one by one in a loop: idiom not understood")
+                        continue
                     extra += 1
                     if rhs is not None and rhs.const_value() == 0:
                         explicit_nul = True
@@ -1058,6 +1103,16 @@ def analyse_grown_buffers(prog, util=False):
                 if nm == X and rhs is not None and _strip_casts(rhs).k == "CallExpr" and _strip_casts(rhs).j.get("callee") in ("getline", "getdelim"):
                     ga = _strip_casts(rhs).call_args()
                     gl = (render(ga[0]).lstrip("&"), render(ga[1]).lstrip("&"))
+            if gl is None:
+                # X = strlen(B) with B the line buffer of a getline(&B, &M, ..) in this function: strlen(B) + 1 <= M as well
+                for lhs, rhs, st in f.assignments():
+                    nm = lhs["name"] if isinstance(lhs, dict) else render(lhs)
+                    if nm == X and rhs is not None and _strip_casts(rhs).k == "CallExpr" and _strip_casts(rhs).j.get("callee") == "strlen":
+                        bname = render(_strip_casts(rhs).call_args()[0])
+                        for g9 in f.calls(("getline", "getdelim")):
+                            ga = g9.call_args()
+                            if render(ga[0]).lstrip("&") == bname:
+                                gl = (bname, render(ga[1]).lstrip("&"))
             grow_blocks = set()
             for st, call, size in allocs:
                 if gl is not None and call.j["callee"] == "realloc" and render(_strip_casts(size)) == gl[1] and render(a[1]) == gl[0] and cc <= 1:
@@ -1071,6 +1126,11 @@ def analyse_grown_buffers(prog, util=False):
                 l, r = _plus_const(lit.lhs), _plus_const(lit.rhs)
                 if l is None or r is None:
                     return False
+                # capacity against getline()'s capacity: cap >= M, and the line with its NUL fits M
+                if gl is not None and cc <= 1 and render(a[1]) == gl[0] and not lit.pol and l == (N, 0) and r == (gl[1], 0):
+                    return True
+                if gl is not None and cc <= 1 and render(a[1]) == gl[0] and lit.pol and l == (gl[1], 0) and r == (N, 1):
+                    return True
                 if lit.pol and l[0] == X and r == (N, 0):
                     return cc <= l[1] + 1           # X + k < N
                 if not lit.pol and l == (N, 0) and r[0] == X:
